@@ -169,6 +169,75 @@ func ruleFragmentSweep(p *Prog, l *Ledger, tier string) {
 			l.Fail(rule, name, key, bad, fmt.Sprintf("%s assigns %s at %s inside a `range` over it: the range clause keeps the slice (and length) it evaluated at the start, so after an insertion the last elements are not visited in this pass and the boundary is not cut in them", name, loc, bad))
 		}
 	}
+	// (c') a counted loop that inserts into the list re-reads the length on every trip: a bound taken
+	// before the loop does not see the cues the insertions push beyond it
+	for _, li := range loops {
+		if li.header.Comment == "rangeindex.loop" {
+			continue
+		}
+		var ins *ssa.Store
+		for b := range li.blocks {
+			for _, x := range b.Instrs {
+				if st, ok := x.(*ssa.Store); ok {
+					if t, fld := fieldOfAddr(st.Addr); t == "Subtitles" && fld == "Items" {
+						ins = st
+					}
+				}
+			}
+		}
+		if ins == nil {
+			continue
+		}
+		// innermost loop holding the store only
+		inner := true
+		for _, l2 := range loops {
+			if l2 != li && li.blocks[l2.header] && l2.blocks[ins.Block()] {
+				inner = false
+			}
+		}
+		if !inner {
+			continue
+		}
+		key := l.Key(rule, name, "bound-reread", loopDesc(li))
+		bad := ""
+		for b := range li.blocks {
+			iff, ok := b.Instrs[len(b.Instrs)-1].(*ssa.If)
+			if !ok {
+				continue
+			}
+			exits := false
+			for _, sc := range b.Succs {
+				if !li.blocks[sc] {
+					exits = true
+				}
+			}
+			bo, ok := iff.Cond.(*ssa.BinOp)
+			if !exits || !ok {
+				continue
+			}
+			for _, side := range []ssa.Value{bo.X, bo.Y} {
+				base, _ := linear(side)
+				if _, isPhi := base.(*ssa.Phi); isPhi {
+					continue
+				}
+				if _, isC := base.(*ssa.Const); isC {
+					continue
+				}
+				bi, isIns := base.(ssa.Instruction)
+				if isIns && li.blocks[bi.Block()] {
+					continue // evaluated inside the loop
+				}
+				if isIntegerT(base.Type()) {
+					bad = descOf(base)
+				}
+			}
+		}
+		if bad == "" {
+			l.Prove(rule, name, key, loopPos(p, li), "the loop that inserts into the list compares its counter with a length read inside the loop")
+		} else {
+			l.Fail(rule, name, key, loopPos(p, li), fmt.Sprintf("%s: the loop at %s inserts into the list but stops at %s, a bound computed before the loop: the cues that the insertions push beyond it are not visited in this pass, so a boundary is not cut in them", name, loopPos(p, li), bad))
+		}
+	}
 	l.Min(rule, len(windowPhis)+1, 2)
 }
 
